@@ -103,7 +103,8 @@ PROPS = {
     ),
     'C02': dict(
         streams=[dict(name='registry', quick=800, thorough=60000, filter=only('C02:')),
-                 dict(name='stdall', pg=True, mode='stdall', gen='gen_std.py', quick=120, thorough=2500, filter=only('C02:'), also_docs=True)],
+                 dict(name='stdall', pg=True, mode='stdall', gen='gen_std.py', quick=120, thorough=2500, filter=only('C02:'), also_docs=True),
+                 dict(name='twins', pg=True, mode='twins', gen='gen_std.py', quick=20, thorough=20, filter=only('C02:'))],
         rule=REGISTRY_RULE + " C02 oracle: rooted isomorphism (Spec.iso) between the generated type graph and the final registry starting from (identity, returned id) pairs: same path/params/fields/variants/indices/docs/lengths at every node, references corresponding, functional and injective; map_into_portable output = input fields with only references replaced.",
         trusted_base=COMMON_TB,
         assumptions=["TypeId is an injective name of a type (identities modelled as Nat)"],
@@ -111,7 +112,8 @@ PROPS = {
     'C05': dict(
         streams=[dict(name='registry', quick=800, thorough=60000, filter=only('C05:')),
                  dict(name='meta', pg=True, mode='meta', quick=60, thorough=700, filter=only('C05:'), also_docs=True),
-                 dict(name='stdall', pg=True, mode='stdall', gen='gen_std.py', quick=60, thorough=700, filter=only('C05:'))],
+                 dict(name='stdall', pg=True, mode='stdall', gen='gen_std.py', quick=60, thorough=700, filter=only('C05:')),
+                 dict(name='twins', pg=True, mode='twins', gen='gen_std.py', quick=20, thorough=20, filter=only('C05:'))],
         rule=REGISTRY_RULE + " C05 oracle: registry length = number of identities reachable from the registered roots (Spec.reach); per-node type_info() evaluation counters (harness-side) are 1 exactly for reachable identities and never above 1; re-registering present roots (through any alias, with repetition and interleaving) leaves Registry::types() unchanged; alias nodes (same Identity, different fn pointer) get the id of their target.",
         trusted_base=COMMON_TB,
         assumptions=["aliases of built-in std types (Box/Rc/Arc/&/Vec/VecDeque/slice/String/str/PhantomData) are covered by the meta stream of C16; here aliasing is exercised through the harness's Alias<N,K> family and the real PhantomData identity"],
@@ -149,7 +151,8 @@ PROPS = {
     'C16': dict(
         streams=[dict(name='meta', pg=True, mode='meta', quick=60, thorough=700, filter=only('C16:'), also_docs=True),
                  dict(name='tinfo', pg=True, mode='tinfo', quick=60, thorough=700, filter=only('C16:')),
-                 dict(name='stdall', pg=True, mode='stdall', gen='gen_std.py', quick=60, thorough=700, filter=only('C16:'))],
+                 dict(name='stdall', pg=True, mode='stdall', gen='gen_std.py', quick=60, thorough=700, filter=only('C16:')),
+                 dict(name='twins', pg=True, mode='twins', gen='gen_std.py', quick=20, thorough=20, filter=only('C16:'))],
         rule=META_RULE,
         trusted_base=COMMON_TB + ["rustc's TypeId is an injective name of a type; the corpus is a generated Rust program compiled against /repo on every run"],
         assumptions=["pairs are drawn from a finite generated corpus (closed under sub-expressions); the theorems quantify over all type expressions of the modelled grammar"],
